@@ -54,6 +54,32 @@ def Touched (w : World) (op : Op) (z : Nat) : Prop :=
     z = sp ∨ z = o ∨ z = d ∨ z ∈ h.receivers ∨ (h.isRoute = true ∧ ((w.pair z).isSome ∨ z = w.router)) ∨
       (∃ P, w.pair d = some P ∧ z = P.lp)
 
+/-! ### address validation: the address strings an operation submits to `addr_validate` -/
+
+/-- the address strings a hook payload makes the receiving contract validate; `from_` is `cw20_msg.sender`.
+A swap hook (pair) validates its `to`; `WithdrawLiquidity` (pair) validates the cw20 sender; a route hook (router)
+validates the cw20 sender and its `to`. -/
+def Hook.validated (from_ : Nat) : Hook → List Nat
+  | .swap _ _ _ _ dst => dst.toList
+  | .withdraw => [from_]
+  | .routerOps _ _ dst => from_ :: dst.toList
+  | .garbage => []
+
+/-- the user-supplied address strings of an operation that the contracts (or, for the receiver of a provision, the
+LP token's `Mint`) pass through `addr_validate` before the operation can succeed -/
+def validatedAddrs : Op → List Nat
+  | .pair _ _ _ (.provide _ _ _ _ _ r) => r.toList
+  | .pair _ _ _ (.swap _ _ _ _ dst) => dst.toList
+  | .pair _ _ _ (.receive f _ h) => h.validated f
+  | .tokSend _ s _ _ h => h.validated s
+  | .tokSendFrom _ sp _ _ _ h => h.validated sp
+  | .router _ _ (.swapOps _ _ dst) => dst.toList
+  | .router _ _ (.swapOp _ _ dst) => dst.toList
+  | .router _ _ (.assertMin _ _ _ rcv) => [rcv]
+  | .router _ _ (.receive f _ h) => h.validated f
+  | .factory _ _ (.updateConfig o _ _) => o.toList
+  | _ => []
+
 /-- the account that submits an operation -/
 def actorOf : Op → Nat
   | .bankSend s _ _ => s
